@@ -35,9 +35,9 @@ QUICK = [
     ({"L": 3, "MaxP": 2, "MaxSO": 1, "NBuf": 2, "NTexts": 2, **BASE}, "3 cells, <=2 patches over two variant buffers, <=1 source-only slice"),
 ]
 THOROUGH = [
-    ({"L": 3, "MaxP": 3, "MaxSO": 2, "NBuf": 2, "NTexts": 2, "SOKinds": 1, "NParts": 8}, "3 cells, <=3 patches over two buffers, <=2 source-only slices"),
-    ({"L": 3, "MaxP": 2, "MaxSO": 2, "NBuf": 2, "NTexts": 3, "SOKinds": 2, "NParts": 2}, "3 cells, <=2 patches, three texts, block and comment"),
-    ({"L": 4, "MaxP": 3, "MaxSO": 2, "NBuf": 1, "NTexts": 2, "SOKinds": 1, "NParts": 8}, "4 cells, <=3 patches, <=2 source-only slices, one variant"),
+    ({"L": 3, "MaxP": 3, "MaxSO": 2, "NBuf": 1, "NTexts": 2, "SOKinds": 2, "NParts": 4}, "3 cells (4 types), <=3 patches, <=2 source-only slices, one variant"),
+    ({"L": 3, "MaxP": 2, "MaxSO": 2, "NBuf": 2, "NTexts": 3, "SOKinds": 1, "NParts": 2}, "3 cells, <=2 patches over two variant buffers, three texts, <=2 source-only slices"),
+    ({"L": 4, "MaxP": 2, "MaxSO": 2, "NBuf": 1, "NTexts": 2, "SOKinds": 1, "NParts": 2}, "4 cells, <=2 patches, <=2 source-only slices, one variant"),
 ]
 COHERENCE = {"L": 2, "MaxP": 3, "MaxSO": 2, "NBuf": 1, "NTexts": 2, "SOKinds": 1, "NParts": 1, "Part": 0, "EmitOn": False}
 
@@ -135,19 +135,19 @@ def run_sampled(rep: Report, seed: int, n: int, clauses) -> None:
     rep.model(m, f"{len(cases)} sampled cases: 6 cells, 2..5 patches, two buffers (not exhaustive)")
     if len(m.records) != len(cases):
         raise MachineryError(f"Patches emitted {len(m.records)} of {len(cases)} sampled cases")
+    rep.extra["sampled_cases_beyond_exhaustive_scope"] = len(cases)
     replay_records(rep, m.records, clauses, "sampled", offset=10_000_000)
 
 
 def s_to_c(rep: Report, tier: str, seed: int, clauses) -> None:
-    co = run_tlc("Patches", cfg_text(constants=COHERENCE, invariants=["ContractCoherent"] + P.INVARIANTS),
-                 workers=P.tlc_workers(), timeout=900)
+    co = P.enumerate_cases(COHERENCE, timeout=900, extra_inv=["ContractCoherent"])
     expect_model_ok(co, "output-level clauses agree with the applied-set form (ContractCoherent)")
     rep.model(co, "ContractCoherent: OnlyPatchedRangesDiffer / TemplateCellsPreserved on outputs <=> conditions on the applied set")
     offset = 0
     for consts, what in model_scope(tier):
         m = P.enumerate_cases(consts, timeout=2400)
         expect_model_ok(m, "Patches Algo => Contract: " + what)
-        rep.model(m, what)
+        rep.model(m, what + (" [model run restored from cache]" if getattr(m, "cached", False) else ""))
         if m.distinct != 2 * len(m.records) or not m.records:
             raise MachineryError(f"Patches ({what}): {m.distinct} states but {len(m.records)} emitted cases")
         replay_records(rep, m.records, clauses, what, offset)
@@ -213,9 +213,9 @@ def fix_inputs(tier: str, seed: int):
         if ((cfgs or {}).get("core") or {}).get("templater") in ("placeholder", "python") and tier == "quick":
             continue
         items.append((c["id"] + "@core", c["sql"], "core", cfgs, False, {"src": "rule-case", "rule": "core", "templated": True}))
-    ngen = 120 if tier == "quick" else 1500
+    ngen = 120 if tier == "quick" else 600
     for name, t in P.jinja_templates(ngen, rnd):
-        rules = ["all", "layout", "LT01,LT02,CP01,JJ01", "core"][len(items) % 4]
+        rules = ["all", "layout", "LT01,LT02,CP01,JJ01", "core"][(len(items) + len(items) // 11) % 4]
         items.append((name, t, rules, {"core": {"dialect": "ansi"}, "templater": {"jinja": {"context": P.JINJA_CTX}}}, False,
                       {"src": "generated", "rule": rules, "templated": True}))
     return items
